@@ -790,12 +790,17 @@ class Tag:
         if not cls:
             return self
 
+        # A plain class name that was merged into an HTML() class value is stored there
+        # in its attribute-escaped form
+        escaped_form = isinstance(cls, HTML) and not isinstance(class_, HTML)
+
         # Coerce and clean
         class_ = str(class_).strip()
+        forms = {class_, html_escape(class_, attr=True)} if escaped_form else {class_}
 
         # Remove the class value from the ordered set of class values
         # Note: .split() splits on any whitespace and removes empty strings
-        new_classes = [cls_val for cls_val in cls.split() if cls_val != class_]
+        new_classes = [cls_val for cls_val in cls.split() if cls_val not in forms]
         if len(new_classes) > 0:
             # Store the new class value (keeping the HTML() marking of the old value, whose
             # plain parts were already escaped when it was merged)
@@ -822,7 +827,14 @@ class Tag:
         """
         cls = self.attrs.get("class")
         if cls:
-            return class_ in cls.split()
+            tokens = cls.split()
+            if class_ in tokens:
+                return True
+            # A plain class name that was merged into an HTML() class value is stored
+            # there in its attribute-escaped form
+            if isinstance(cls, HTML) and not isinstance(class_, HTML):
+                return html_escape(str(class_), attr=True) in tokens
+            return False
         else:
             return False
 
